@@ -103,24 +103,6 @@ def inflateTable (cs : List Cmd) : List (Bytes × Bytes) :=
 def tableInflate (tab : List (Bytes × Bytes)) (x : Bytes) (n : Nat) : Option Bytes :=
   (tab.find? fun e => e.2.length == n && x.take e.1.length == e.1).map (·.2)
 
-/-- apply the patches one after another with the model; stops at the first failure -/
-def modelChain (inflate : Bytes → Nat → Option Bytes) : List Bytes → Tree → Patch.Outcome × Tree
-  | [], t => (.ok, t)
-  | p :: ps, t =>
-    match Patch.apply inflate p t with
-    | (.ok, t') => modelChain inflate ps t'
-    | r => r
-
-/-- reference semantics of a chain: every patch starts without a target platform -/
-def specChain : List (List Cmd) → Tree → Option Tree
-  | [], t => some t
-  | cs :: rest, t =>
-    if cs.all Cmd.wf then
-      match run { plat := none, tree := t } cs with
-      | some s => specChain rest s.tree
-      | none => none
-    else none
-
 def handleCase (api tree : String) (cmdss : List String) : String :=
   match stripKey "api" api, (stripKey "tree" tree).bind parseTree, cmdss.mapM (fun s => (stripKey "cmds" s).bind parseCmds) with
   | some api, some t, some pss =>
@@ -128,10 +110,10 @@ def handleCase (api tree : String) (cmdss : List String) : String :=
     if api == "boot" && !isFile t [Bytes.ofString "ffxivboot.ver"] then bad else
     let patches := pss.map encodePatch
     let inflate := tableInflate (inflateTable pss.flatten)
-    let (o, mt) := modelChain inflate patches t
+    let (o, mt) := Patch.applyAll inflate patches t
     let model := outcomeStr o ++ " " ++ showTree mt true
     let input := " ".intercalate (api :: patches.map toHexFast)
-    match specChain pss t with
+    match (if WFchain pss t then runChain pss t else none) with
     | some st => answer input ("ok " ++ showTree st true) (if pss.flatten.isEmpty then ["triv"] else []) (some model)
     | none => answer input model ["triv", "nwf"] (some model)
   | _, _, _ => bad
